@@ -15,6 +15,9 @@ import (
 
 // ---- C07: serving is total: exactly one chain, never a routing panic (engine E) ----
 
+// c07HarnessBug is the panic value for a route set whose own expectations are wrong.
+type c07HarnessBug string
+
 type c07Route struct {
 	Method string   `json:"method"` // one of the nine or "*"
 	Text   string   `json:"route"`
@@ -22,41 +25,45 @@ type c07Route struct {
 	// Rejected: an attempt that the router refuses (the registration panic is recovered and the application
 	// goes on): it must leave the routes registered before it as they were
 	Rejected bool `json:"rejected_attempt,omitempty"`
+	// Then: further Headers() calls on the route after the first, in order; the last one counts
+	Then [][]string `json:"later_header_calls,omitempty"`
 }
 
 var c07Sets = [][]c07Route{
 	{},
-	{{"GET", "/", nil, false}, {"GET", "/a", nil, false}, {"GET", "/a/b", nil, false}},
-	{{"GET", "/{x}", nil, false}, {"GET", "/a/{y}", nil, false}},
-	{{"GET", "/{r: /[a2]+/}", nil, false}, {"GET", "/a/{s: /a|z/}/c", nil, false}},
-	{{"GET", "/a/{m: **}", nil, false}},
-	{{"GET", "/{m: **, capture: 2}/z", nil, false}},
-	{{"GET", "/a/{m: **, capture: 2}", nil, false}, {"GET", "/{n: **, capture: 1}", nil, false}},
-	{{"GET", "/a/?b", nil, false}, {"GET", "/?{o}", nil, false}},
-	{{"GET", "/a", []string{"X-K", "^v$"}, false}, {"GET", "/a/{x}", []string{"X-K", ""}, false}, {"GET", "/{m: **}", nil, false}},
-	{{"GET", "/", nil, false}, {"GET", "/a", nil, false}, {"GET", "/{x}", nil, false}, {"GET", "/a/{m: **}", nil, false}, {"GET", "/a/b/?c", nil, false}, {"GET", "/{r: /[a.]+/}/z", nil, false}},
-	{{"GET", "/a", nil, false}, {"POST", "/a", nil, false}, {"*", "/{x}", nil, false}, {"HEAD", "/a/{m: **}/z", nil, false}},
-	{{"GET", "/a.{x}", nil, false}, {"GET", "/{x}.{y}", nil, false}, {"GET", "/a/{x}-{y}/?z", nil, false}},
+	{{Method: "GET", Text: "/"}, {Method: "GET", Text: "/a"}, {Method: "GET", Text: "/a/b"}},
+	{{Method: "GET", Text: "/{x}"}, {Method: "GET", Text: "/a/{y}"}},
+	{{Method: "GET", Text: "/{r: /[a2]+/}"}, {Method: "GET", Text: "/a/{s: /a|z/}/c"}},
+	{{Method: "GET", Text: "/a/{m: **}"}},
+	{{Method: "GET", Text: "/{m: **, capture: 2}/z"}},
+	{{Method: "GET", Text: "/a/{m: **, capture: 2}"}, {Method: "GET", Text: "/{n: **, capture: 1}"}},
+	{{Method: "GET", Text: "/a/?b"}, {Method: "GET", Text: "/?{o}"}},
+	{{Method: "GET", Text: "/a", Hdr: []string{"X-K", "^v$"}}, {Method: "GET", Text: "/a/{x}", Hdr: []string{"X-K", ""}}, {Method: "GET", Text: "/{m: **}"}},
+	{{Method: "GET", Text: "/"}, {Method: "GET", Text: "/a"}, {Method: "GET", Text: "/{x}"}, {Method: "GET", Text: "/a/{m: **}"}, {Method: "GET", Text: "/a/b/?c"}, {Method: "GET", Text: "/{r: /[a.]+/}/z"}},
+	{{Method: "GET", Text: "/a"}, {Method: "POST", Text: "/a"}, {Method: "*", Text: "/{x}"}, {Method: "HEAD", Text: "/a/{m: **}/z"}},
+	{{Method: "GET", Text: "/a.{x}"}, {Method: "GET", Text: "/{x}.{y}"}, {Method: "GET", Text: "/a/{x}-{y}/?z"}},
 	// a static route registered for all methods after an optional twin for GET only, with header
 	// constraints (every method's leaf has its own standing in its own tree)
-	{{"GET", "/a/?z", nil, false}, {"*", "/a/z", []string{"X-K", "^v$"}, false}, {"POST", "/{m: **}", nil, false}},
+	{{Method: "GET", Text: "/a/?z"}, {Method: "*", Text: "/a/z", Hdr: []string{"X-K", "^v$"}}, {Method: "POST", Text: "/{m: **}"}},
 	// the constrained header named in a non-canonical spelling
-	{{"GET", "/a", []string{"x-k", "^v$"}, false}, {"GET", "/{x}", nil, false}},
+	{{Method: "GET", Text: "/a", Hdr: []string{"x-k", "^v$"}}, {Method: "GET", Text: "/{x}"}},
 	// expressions with quoting (\Q..\E): self-contained, and one whose \Q is not closed inside its own
 	// expression (if such a route is accepted, serving it must still not panic)
-	{{"GET", `/{x: /(a)\Qz\E/}{y: /\Qb\E/}`, nil, false}, {"GET", "/{p}", nil, false}},
-	{{"GET", `/{x: /(a)\Q/}{y: /\Qb\E/}`, nil, false}, {"GET", "/{p}", nil, false}},
+	{{Method: "GET", Text: `/{x: /(a)\Qz\E/}{y: /\Qb\E/}`}, {Method: "GET", Text: "/{p}"}},
+	{{Method: "GET", Text: `/{x: /(a)\Q/}{y: /\Qb\E/}`}, {Method: "GET", Text: "/{p}"}},
+	// constraints specified again: cleared with an empty call, and replaced
+	{{Method: "GET", Text: "/a", Hdr: []string{"X-K", "^v$"}, Then: [][]string{{}}}, {Method: "GET", Text: "/z/?z", Hdr: []string{"X-K", "^v$"}, Then: [][]string{{"X-K", "^w$"}, {}}}, {Method: "GET", Text: "/{m: **}", Hdr: []string{"X-K", ""}, Then: [][]string{{}, {"X-K", "^w$"}}}},
 	// registration attempts that are refused, between accepted ones (bind reused deeper down the same
 	// prefix, a duplicate, a second match-all): the accepted routes stay as they were
 	{{Method: "GET", Text: "/a/{x}"}, {Method: "GET", Text: "/a/{x}/{y}/{y}", Rejected: true}, {Method: "GET", Text: "/a/{x}/z"}, {Method: "GET", Text: "/a/{x}/z", Rejected: true}, {Method: "GET", Text: "/{m: **}"}},
-	{{Method: "GET", Text: "/a/b/z"}, {Method: "GET", Text: "/a/?b"}, {Method: "GET", Text: "/a/b", Rejected: true}, {Method: "GET", Text: "/a/{m: **}/{n: **}/z", Rejected: true}, {Method: "GET", Text: "/a/{m: **}/z"}},
+	{{Method: "GET", Text: "/a/b/z"}, {Method: "GET", Text: "/a/?b"}, {Method: "GET", Text: "/a", Rejected: true}, {Method: "GET", Text: "/a/{m: **}/{n: **}/z", Rejected: true}, {Method: "GET", Text: "/a/{m: **}/z"}},
 	// capture limits at the edges of their range (non-positive means unlimited)
-	{{"GET", "/a/{m: **, capture: -1}/z", nil, false}, {"GET", "/{n: **, capture: 0}", nil, false}},
-	{{"GET", "/a/{m: **, capture: 9223372036854775807}/z", nil, false}, {"GET", "/z/{n: **, capture: -9223372036854775808}", nil, false}},
+	{{Method: "GET", Text: "/a/{m: **, capture: -1}/z"}, {Method: "GET", Text: "/{n: **, capture: 0}"}},
+	{{Method: "GET", Text: "/a/{m: **, capture: 9223372036854775807}/z"}, {Method: "GET", Text: "/z/{n: **, capture: -9223372036854775808}"}},
 	// a larger mixed table (many siblings of every kind under two prefixes)
-	{{"GET", "/", nil, false}, {"GET", "/a", nil, false}, {"GET", "/a/", nil, false}, {"GET", "/a/b", nil, false}, {"GET", "/a/{x}", nil, false}, {"GET", "/a/{r: /[a2]+/}/z", nil, false}, {"GET", "/a/{m: **, capture: 3}/z", nil, false},
-		{"GET", "/a/c/?d", nil, false}, {"GET", "/z/{p}/{q}", nil, false}, {"GET", "/z/{p}/{q}/{r: /z+/}", nil, false}, {"GET", "/z/{m: **}", nil, false}, {"GET", "/{x}/z", nil, false}, {"GET", "/{s: /[.?]+/}", nil, false},
-		{"POST", "/a/{x}", nil, false}, {"*", "/z/?a", nil, false}, {"HEAD", "/{m: **, capture: 2}", nil, false}, {"GET", "/{p}.{q: /[az]+/}/{m: **}", nil, false}},
+	{{Method: "GET", Text: "/"}, {Method: "GET", Text: "/a"}, {Method: "GET", Text: "/a/"}, {Method: "GET", Text: "/a/b"}, {Method: "GET", Text: "/a/{x}"}, {Method: "GET", Text: "/a/{r: /[a2]+/}/z"}, {Method: "GET", Text: "/a/{m: **, capture: 3}/z"},
+		{Method: "GET", Text: "/a/c/?d"}, {Method: "GET", Text: "/z/{p}/{q}"}, {Method: "GET", Text: "/z/{p}/{q}/{r: /z+/}"}, {Method: "GET", Text: "/z/{m: **}"}, {Method: "GET", Text: "/{x}/z"}, {Method: "GET", Text: "/{s: /[.?]+/}"},
+		{Method: "POST", Text: "/a/{x}"}, {Method: "*", Text: "/z/?a"}, {Method: "HEAD", Text: "/{m: **, capture: 2}"}, {Method: "GET", Text: "/{p}.{q: /[az]+/}/{m: **}"}},
 }
 
 var c07Methods = []string{"GET", "POST", "HEAD", "BREW", "get", ""}
@@ -120,7 +127,7 @@ func c07BuildL(set []c07Route, userNotFound, withMW, late bool) *c07World {
 			func() {
 				defer func() {
 					if recover() == nil {
-						panic("c07: an attempt marked as rejected was accepted: " + rt.Text)
+						panic(c07HarnessBug("an attempt marked as rejected was accepted: " + rt.Text))
 					}
 				}()
 				w.f.Route(rt.Method, rt.Text, []flamego.Handler{marker, final})
@@ -130,6 +137,10 @@ func c07BuildL(set []c07Route, userNotFound, withMW, late bool) *c07World {
 		h := w.f.Route(rt.Method, rt.Text, []flamego.Handler{marker, final})
 		if len(rt.Hdr) > 0 {
 			h.Headers(rt.Hdr...)
+		}
+		for _, later := range rt.Then {
+			h.Headers(later...)
+			rt.Hdr = later // the model looks at the constraints in force
 		}
 		accepted = append(accepted, rt)
 		w.refs = append(w.refs, ref.MustParse(rt.Text))
@@ -333,7 +344,12 @@ func c07Run(r *core.Run) {
 			j := jobs[ji]
 			// a set whose registration is refused (registration panics) is C08's business: counted, skipped
 			if refused := func() (pv interface{}) {
-				defer func() { pv = recover() }()
+				defer func() {
+					pv = recover()
+					if hb, ok := pv.(c07HarnessBug); ok {
+						panic(hb) // a wrong expectation of the harness, not a refusal: fail loudly
+					}
+				}()
 				c07Build(c07Sets[j.si], j.userNF, j.mw)
 				return nil
 			}(); refused != nil {
